@@ -194,6 +194,29 @@ pub fn op_asm(f: &[String]) -> String
     }
     s.push_str(&format!("\"symbols\":[{}],", syms.join(",")));
     s.push_str(&format!("\"first_error\":{},", json::string(&first_error(&report))));
+    // the complete final resolver state (for the fixed-point certificate of C02)
+    if let (Some(defs), true) = (result.defs.as_ref(), result.output.is_some())
+    {
+        let vrepr = |v: &expr::Value| -> String { match v
+        {
+            expr::Value::Unknown => "u".to_string(),
+            expr::Value::FailedConstraint(_) => "x".to_string(),
+            expr::Value::Void => "v".to_string(),
+            expr::Value::Integer(b) => format!("i{}", dec(b).replace(' ', ":")),
+            expr::Value::String(st) => format!("s{}:{}", if st.utf8_contents.is_empty() { "-".to_string() } else { json::hex(st.utf8_contents.as_bytes()) }, st.encoding),
+            expr::Value::Bool(b) => if *b { "b1".to_string() } else { "b0".to_string() },
+            expr::Value::ExprBuiltInFunction(_) | expr::Value::AsmBuiltInFunction(_) => "o".to_string(),
+            expr::Value::Function(i) => format!("f{}", i),
+        }};
+        let syms: Vec<String> = defs.symbols.defs.iter().map(|o| match o { Some(sy) => vrepr(&sy.value), None => "h".to_string() }).collect();
+        let ins: Vec<String> = defs.instructions.defs.iter().map(|o| dec(&o.as_ref().unwrap().encoding).replace(' ', ":")).collect();
+        let dat: Vec<String> = defs.data_elems.defs.iter().map(|o| dec(&o.as_ref().unwrap().encoding).replace(' ', ":")).collect();
+        let res: Vec<String> = defs.res_directives.defs.iter().map(|o| o.as_ref().unwrap().reserve_size.to_string()).collect();
+        let ali: Vec<String> = defs.align_directives.defs.iter().map(|o| o.as_ref().unwrap().align_size.to_string()).collect();
+        let adr: Vec<String> = defs.addr_directives.defs.iter().map(|o| dec(&o.as_ref().unwrap().address).split(' ').next().unwrap().to_string()).collect();
+        let j = |v: Vec<String>| if v.is_empty() { "-".to_string() } else { v.join(",") };
+        s.push_str(&format!("\"state\":\"{} {} {} {} {} {}\",", j(syms), j(ins), j(dat), j(res), j(ali), j(adr)));
+    }
     s.push_str(&format!("\"messages\":[{}],", msgs.join(",")));
     let mut printed = Vec::<u8>::new();
     report.print_all(&mut printed, &fileserver, false);
